@@ -58,6 +58,13 @@ static inline u64 IR2C_cttz64(u64 x)  { u64 n = 0; for (int i = 0; i < 64 && !((
 #define IR2C_range_check(c) do { if (!(c)) { fprintf(stderr, "IR2C: range check failed\n"); abort(); } } while (0)
 #endif
 
+/* ordering of two pointers.  Same object: compare offsets (CBMC folds this for concrete pointers).  Different objects: compare the integer views -- a direct
+ * pointer comparison makes CBMC reason about the numeric placement of objects, and the SAT solver did not return on 10 k-step programs. */
+#ifdef __CPROVER__
+#define IR2C_PTRCMP(a, op, b) (__CPROVER_same_object((a), (b)) ? (__CPROVER_POINTER_OFFSET(a) op __CPROVER_POINTER_OFFSET(b)) : ((u64)(a) op (u64)(b)))
+#else
+#define IR2C_PTRCMP(a, op, b) ((a) op (b))
+#endif
 /* symbolic inputs / observation layer shared with the C harnesses */
 #include "vsym_c.h"
 #ifdef __CPROVER__
